@@ -434,6 +434,21 @@ fn random_expr(rng: &mut Rng, a: &Alphabet, depth: u32) -> String {
 // oracle: execution on the reference semantics
 // ---------------------------------------------------------------------------------------------
 
+/// every way a case (or a part of its checks) can be left out; all are counted in the evidence
+/// (histogram `skipped`), and all but the listed-known ones raise a violation
+const SKIP_REASONS: &[&str] = &[
+    "not-buildable",
+    "evaluator-panic:known-hex-exponent-overflow(C08-P1)",
+    "evaluator-panic:UNEXPECTED",
+    "oracle-run-timeout",
+    "oracle-run-protocol-error",
+    "e2e:program-not-buildable",
+    "e2e:rule-error",
+    "e2e:rule-panic:known-hex-exponent-overflow(C08-P1)",
+    "e2e:rule-panic:UNEXPECTED",
+    "random-tree-over-6000-bytes(regenerated)",
+];
+
 const HOLE: &str = "(var x5f5f484f4c45)"; // __HOLE
 
 /// Lua preludes binding the opaque leaves; `__HOLE` is replaced by the expression
@@ -603,7 +618,22 @@ fn oracle(model: &mut Model, ctx: &Ctx, real: &Answers, expr: &str, all_envs: bo
         match &outcome {
             Outcome::Ok { .. } => r.hist("oracle_run", "ok"),
             Outcome::Err { .. } => r.hist("oracle_run", "error"),
-            Outcome::Other => r.hist("oracle_run", if answer == "timeout" { "timeout" } else { "protocol" }),
+            Outcome::Other => {
+                if answer == "timeout" {
+                    r.hist("oracle_run", "timeout");
+                    r.hist("skipped", "oracle-run-timeout");
+                } else {
+                    r.hist("oracle_run", "protocol");
+                    r.hist("skipped", "oracle-run-protocol-error");
+                    r.violation(Violation {
+                        kind: "correspondence".into(),
+                        check: "harness:sem.run".into(),
+                        what: format!("the reference semantics driver did not answer with an outcome: {}", answer.chars().take(120).collect::<String>()),
+                        input: json!({"expr": expr, "environment": name}),
+                        failing_input_found: false,
+                    });
+                }
+            }
         }
         if let Some(why) = judge(real, &outcome) {
             return Some(((*name).to_owned(), why, answer));
@@ -665,8 +695,16 @@ fn subexpressions(expr: &str) -> Vec<String> {
 fn check_case(model: &mut Model, ctx: &Ctx, r: &mut Report, wire: &str, source: &str, all_envs: bool, salt: usize) {
     let expr = match astsexp::sexp_to_expr(wire) {
         Ok(e) => e,
-        Err(_) => {
+        Err(why) => {
+            // the generators only emit buildable trees: a refusal is a break of the codec tie, not a case to drop
             r.hist("skipped", "not-buildable");
+            r.violation(Violation {
+                kind: "correspondence".into(),
+                check: "harness:not-buildable".into(),
+                what: format!("the wire expression cannot be rebuilt as a darklua Expression ({}): the case would be dropped", why),
+                input: json!({"expr": wire, "source": source}),
+                failing_input_found: false,
+            });
             return;
         }
     };
@@ -675,11 +713,34 @@ fn check_case(model: &mut Model, ctx: &Ctx, r: &mut Report, wire: &str, source: 
     let real = match real_answers(&expr) {
         Some(a) => a,
         None => {
-            r.hist("skipped", "evaluator-panic");
+            // The real Evaluator took the process down where the model answers. The only panic of the
+            // unchanged tree is the hex-exponent overflow of `HexNumber::compute_value` (known finding
+            // C12-F10, listed for C08 as C08-P1): attributed when such a literal occurs in the expression.
             r.count("evaluator_panics", 1);
-            if r.counters.get("evaluator_panics") == Some(&1) {
-                r.notes.push(format!("the real evaluator panicked on {} (crash freedom is property C12)", wire));
+            if model.ask(&format!("c08.panicclass {}", wire)) == "true" {
+                r.hist("skipped", "evaluator-panic:known-hex-exponent-overflow(C08-P1)");
+                return;
             }
+            r.hist("skipped", "evaluator-panic:UNEXPECTED");
+            let model_text = model.ask(&format!("c08.eval {}", wire));
+            // smallest panicking sub-expression
+            let mut smallest = wire.clone();
+            for sub in subexpressions(&wire) {
+                if let Ok(e) = astsexp::sexp_to_expr(&sub) {
+                    if real_answers(&e).is_none() {
+                        smallest = sub;
+                        break;
+                    }
+                }
+            }
+            let small_model = model.ask(&format!("c08.eval {}", smallest));
+            r.violation(Violation {
+                kind: "correspondence".into(),
+                check: "evaluator-panic".into(),
+                what: "the real Evaluator PANICS on an expression for which the Lean model returns an answer: the evaluator assigns nothing and takes the process down (the expression is a failing input of crash freedom, property C12)".into(),
+                input: json!({"expr": smallest, "within": wire, "real": "panic", "model": small_model, "model_within": model_text}),
+                failing_input_found: false,
+            });
             return;
         }
     };
@@ -787,7 +848,17 @@ fn end_to_end(model: &mut Model, ctx: &Ctx, r: &mut Report, wire: &str, rule: &d
     let program = env_block.replace(HOLE, wire);
     let block0 = match astsexp::sexp_to_block(&program) {
         Ok(b) => b,
-        Err(_) => return,
+        Err(why) => {
+            r.hist("skipped", "e2e:program-not-buildable");
+            r.violation(Violation {
+                kind: "correspondence".into(),
+                check: "harness:e2e-not-buildable".into(),
+                what: format!("the end-to-end program cannot be rebuilt as a darklua Block ({})", why),
+                input: json!({"expr": wire}),
+                failing_input_found: false,
+            });
+            return;
+        }
     };
     let mut block1 = block0.clone();
     let resources = darklua_core::Resources::from_memory();
@@ -797,9 +868,32 @@ fn end_to_end(model: &mut Model, ctx: &Ctx, r: &mut Report, wire: &str, rule: &d
     }));
     match applied {
         Ok(Ok(())) => {}
-        Ok(Err(_)) => return,
+        Ok(Err(why)) => {
+            // compute_expression has no failing path: an error is unexpected
+            r.hist("skipped", "e2e:rule-error");
+            r.violation(Violation {
+                kind: "correspondence".into(),
+                check: "e2e:rule-error".into(),
+                what: format!("the real compute_expression rule returned an error: {}", why),
+                input: json!({"expr": wire}),
+                failing_input_found: false,
+            });
+            return;
+        }
         Err(_) => {
             r.count("e2e_rule_panics", 1);
+            if model.ask(&format!("c08.panicclass {}", wire)) == "true" {
+                r.hist("skipped", "e2e:rule-panic:known-hex-exponent-overflow(C08-P1)");
+            } else {
+                r.hist("skipped", "e2e:rule-panic:UNEXPECTED");
+                r.violation(Violation {
+                    kind: "correspondence".into(),
+                    check: "e2e:rule-panic".into(),
+                    what: "the real compute_expression rule PANICS on `return <e>` (through the Evaluator) where the Lean model returns an answer".into(),
+                    input: json!({"expr": wire, "model": model.ask(&format!("c08.eval {}", wire))}),
+                    failing_input_found: false,
+                });
+            }
             return;
         }
     }
@@ -897,11 +991,31 @@ fn replay_known_findings(model: &mut Model, ctx: &Ctx, r: &mut Report) {
             Ok(e) => e,
             Err(_) => continue,
         };
-        let real = match real_answers(&expr) {
-            Some(a) => a,
-            None => continue,
-        };
         let wire = astsexp::expr_to_sexp(&expr);
+        let real = match real_answers(&expr) {
+            Some(a) => {
+                if entry["witness"]["panics"].as_bool() == Some(true) {
+                    continue; // no longer panics: say nothing
+                }
+                a
+            }
+            None => {
+                if entry["witness"]["panics"].as_bool() == Some(true) {
+                    if model.ask(&format!("c08.panicclass {}", wire)) == "true" {
+                        r.known_finding(&id, &format!("{} — the real Evaluator panics (u64 overflow in HexNumber::compute_value); the model answers {}", entry["source"].as_str().unwrap_or(""), model.ask(&format!("c08.eval {}", wire))));
+                    } else {
+                        r.violation(Violation {
+                            kind: "finding-changed".into(),
+                            check: format!("known-finding:{}", id),
+                            what: format!("witness of {} panics but is not in the listed literal class", id),
+                            input: json!({"expr": wire}),
+                            failing_input_found: false,
+                        });
+                    }
+                }
+                continue;
+            }
+        };
         if let Some((env, why, _)) = oracle(model, ctx, &real, &wire, true, 0, r) {
             let h = model.ask(&format!("c08.h {}", wire));
             if h.starts_with("(true") {
@@ -967,6 +1081,9 @@ pub fn run(report: &mut Report, replay: Option<&str>) {
         }
     }
 
+    for reason in SKIP_REASONS {
+        report.histograms.entry("skipped".into()).or_default().entry((*reason).into()).or_insert(0);
+    }
     let d1 = depth1(&alpha);
     let rd1 = reduced_depth1(&alpha);
     let d2_total = depth2_count(&rd1);
@@ -1017,6 +1134,7 @@ pub fn run(report: &mut Report, replay: Option<&str>) {
             let depth = 2 + rng.below(5) as u32;
             let w = random_expr(&mut rng, alpha, depth);
             if w.len() > 6000 {
+                r.hist("skipped", "random-tree-over-6000-bytes(regenerated)");
                 continue;
             }
             check_case(&mut model, ctx, r, &w, "random", false, j);
